@@ -46,7 +46,9 @@ def run(module, cfg=None, timeout=600, workers=16, coverage=False, heap="8g", en
     """Run TLC on spec/<module>.tla with spec/<cfg>.cfg."""
     res = TlcResult()
     meta = tempfile.mkdtemp(prefix="tlc-meta-")
-    cmd = _java(heap, dfs) + ["-metadir", meta, "-workers", str(workers), "-noGenerateSpecTE"]
+    jv = _java(heap, dfs)
+    jv.insert(1, "-Djava.io.tmpdir=" + meta)      # TLC's own scratch directories vanish with the metadir
+    cmd = jv + ["-metadir", meta, "-workers", str(workers), "-noGenerateSpecTE"]
     if cfg:
         cmd += ["-config", cfg if cfg.endswith(".cfg") else cfg + ".cfg"]
     if coverage:
@@ -141,8 +143,12 @@ def run(module, cfg=None, timeout=600, workers=16, coverage=False, heap="8g", en
 
 
 def sany(module):
-    cmd = ["java", "-cp", JAR, "tla2sany.SANY", module if module.endswith(".tla") else module + ".tla"]
-    p = subprocess.run(cmd, cwd=SPEC, capture_output=True, text=True, timeout=120)
+    tmp = tempfile.mkdtemp(prefix="sany-")
+    cmd = ["java", "-Djava.io.tmpdir=" + tmp, "-cp", JAR, "tla2sany.SANY", module if module.endswith(".tla") else module + ".tla"]
+    try:
+        p = subprocess.run(cmd, cwd=SPEC, capture_output=True, text=True, timeout=120)
+    finally:
+        shutil.rmtree(tmp, ignore_errors=True)
     bad = p.returncode != 0 or "rror" in p.stdout and "Semantic errors" in p.stdout or "Could not parse" in p.stdout \
         or "*** Errors" in p.stdout or "Fatal errors" in p.stdout
     return (not bad), p.stdout
